@@ -35,6 +35,8 @@ EXPRS_Q = [
     # tag names that contain a v2 keyword as a substring (dialect detection must look at whole words)
     ("@a,@band", ["or", ["lit", "a"], ["lit", "band"]], "auto", ["a", "b", "band"]),
     ("nor,b", ["or", ["lit", "nor"], ["lit", "b"]], "auto", ["nor", "b", "ab"]),
+    # several --tags options in the new dialect are AND-ed as wholes (one of them has a top-level "or" between parenthesised operands)
+    (["(a) or (b)", "not ab"], ["and", ["or", ["lit", "a"], ["lit", "b"]], ["not", ["lit", "ab"]]], "v2"),
 ]
 EXPRS_T = EXPRS_Q + [
     ("not (a or b)", ["not", ["or", ["lit", "a"], ["lit", "b"]]], "v2"), ("not not a", ["not", ["not", ["lit", "a"]]], "v2"),
@@ -112,9 +114,11 @@ def jobs(tier, seed):
         for i, ex in enumerate(exprs):
             text, tree, proto = ex[:3]
             names = ex[3] if len(ex) > 3 else ["a", "b", "ab"]
-            if sname in ("outline-untagged", "stepless", "same-names", "undef-steps") and tier == "quick" and i not in (0, 1, 3, 6, 11, 13):
+            if sname in ("outline-untagged", "stepless", "same-names", "undef-steps") and tier == "quick" and i not in (0, 1, 3, 6, 11, 13, 18):
                 continue
-            if sname in ("2rules", "2feat", "outline2") and i in (5, 15, 24, 27):
+            if tier == "quick" and i == 18 and sname not in ("plain", "rule", "stepless"):
+                continue        # (quick tier: the three-tag list expression on three small shapes)
+            if sname in ("2rules", "2feat", "outline2") and i in (5, 15, 18, 25, 28):
                 continue        # three-tag expressions on the larger shapes exceed the 600 s job budget (stated bound)
             js.append(Job("sel.%s.e%02d" % (sname, i), "props.c09:h_select",
                           {"shapes": sh, "opts": {"ptags": names, "tag_universe": names,
